@@ -211,6 +211,73 @@ func modelBodies(reps int) {
 	}
 }
 
+// sharedModelBodies: ONE initialised model read by several goroutines, each with a models.Pij of its own and its own
+// branch length (what a tree likelihood with one model and many branches does); P(t) must be what it is alone.
+func sharedModelBodies(reps int) {
+	var ms []models.Model
+	m1 := mdna.NewK2PModel()
+	m1.InitModel(2.5)
+	m2 := mdna.NewJCModel()
+	m2.InitModel()
+	m3 := mdna.NewF84Model()
+	m3.InitModel(1.7, .1, .2, .3, .4)
+	m4 := mdna.NewTN93Model()
+	m4.InitModel(1.5, 0.7, .1, .2, .3, .4)
+	m5 := mdna.NewGTRModel()
+	m5.InitModel(1, 2, 0.5, 1.2, 3, 0.8, .1, .2, .3, .4)
+	ms = append(ms, m1, m2, m3, m4, m5)
+	if pm, err := mprot.NewProtModel(mprot.MODEL_LG, false, 0); err == nil && pm.InitModel(nil) == nil {
+		ms = append(ms, pm)
+	}
+	render := func(k int) (res string) {
+		defer func() {
+			if r := recover(); r != nil {
+				res = fmt.Sprint("panic: ", r)
+			}
+		}()
+		var sb strings.Builder
+		for _, m := range ms {
+			p, err := models.NewPij(m, 0.05*float64(k+1))
+			if err != nil {
+				fmt.Fprint(&sb, "err;")
+				continue
+			}
+			for i := 0; i < 4; i++ {
+				for j := 0; j < 4; j++ {
+					fmt.Fprintf(&sb, "%x,", p.Pij(i, j))
+				}
+			}
+			p.SetLength(0.3 * float64(k+1))
+			fmt.Fprintf(&sb, "%x;", p.Pij(0, 1))
+		}
+		return sb.String()
+	}
+	const nj = 8
+	want := make([]string, nj)
+	for k := range want {
+		want[k] = render(k)
+	}
+	for r := 0; r < reps*40; r++ {
+		var wg sync.WaitGroup
+		got := make([]string, nj)
+		for k := 0; k < nj; k++ {
+			wg.Add(1)
+			go func(k int) {
+				defer wg.Done()
+				got[k] = render(k)
+			}(k)
+		}
+		wg.Wait()
+		for k := range got {
+			if strings.HasPrefix(got[k], "panic: ") {
+				fmt.Println("RACEPASS-PANIC", got[k])
+			} else if got[k] != want[k] {
+				fmt.Println("RACEPASS-RESULT-DIFFERS")
+			}
+		}
+	}
+}
+
 // gammaBodies: discrete-gamma rate categories and the incomplete gamma ratio are pure functions of their
 // arguments: called by several goroutines at once they give the values of the same calls made alone.
 func gammaBodies(reps int) {
@@ -589,6 +656,7 @@ func main() {
 			phylipStreamBodies(reps)
 		case "models":
 			modelBodies(reps)
+			sharedModelBodies(reps)
 		case "gamma":
 			gammaBodies(reps)
 		default:
